@@ -153,6 +153,9 @@ def tasks_for(tier):
         ('crash', dict(levy='none', size=(1,), tol=0.1, halfway=True, t1=Fraction(1, 2)), 1, True, mp, to),
         ('crash', dict(levy='space-time', size=(), tol=0.1, halfway=True, cache_size=1, t1=Fraction(1, 2)), 1, True, mp, to),
         ('crash', dict(wrapper='tree', levy='none', size=(1,), tol=0.1, t1=Fraction(1, 2)), 1, True, mp, to),
+        # a tolerance that is not a power of ten: the rounding grid (10^-1) is coarser than tol
+        ('crash', dict(levy='none', size=(1,), tol=0.05, halfway=True, t1=Fraction(1, 2)), 1, True, mp, to),
+        ('crash', dict(levy='none', size=(1,), tol=0.03, cache_size=1, t1=Fraction(1, 2)), 2, True, mp, to),
         ('crash', dict(levy='none', size=(1,), cache_size=2, dt=0.25), 1, True, mp, to),
         ('crash', dict(levy='none', size=(1,), cache_size=0, dt=0.25), 1, True, mp, to),
         ('chain', dict(levy='none', size=(1,), cache_size=1), 6, True, mp, to),
